@@ -102,7 +102,11 @@ fn gen_case(rng: &mut Rng) -> Case {
     }
     if kind == "inside" && !rng.chance(1, 8) {
         // make the areas overlap: re-centre the referenced shapes near each other
+        // one case in eight leaves the FIRST listed area where it is (far from the others, which overlap one
+        // another): an intersection that is empty half-way through the list stays empty
+        let keep_first_apart = refs.len() >= 3 && rng.chance(1, 8);
         for (k, &i) in refs.iter().enumerate() {
+            if keep_first_apart && k == 0 { continue; }
             let w = nodes[i].bx[2] - nodes[i].bx[0];
             let h = nodes[i].bx[3] - nodes[i].bx[1];
             let (cx, cy) = (10.0 + k as f64, 20.0 - k as f64);
@@ -181,7 +185,16 @@ fn oracle(case: &Case, outs: &[OutEl]) -> Option<String> {
         }
     }
     let Some(g) = case.grown else {
-        return None; // empty intersection: nothing is required of the geometry
+        // the listed areas have no point in common: nothing can lie within all of them, so the element
+        // must not be given a place (the code leaves it without geometry)
+        if case.kind == "inside" {
+            if let Some(ob) = out_box(&c.el) {
+                if c.el.get("width").is_some() || c.el.get("r").is_some() || c.el.get("rx").is_some() {
+                    return Some(format!("the listed areas do not intersect, yet the element was placed at {:?}: {}", ob, c.el.xml()));
+                }
+            }
+        }
+        return None;
     };
     let tol = 0.0021;
     let Some(ob) = out_box(&c.el) else { return Some(format!("container has no geometry: {}", c.el.xml())) };
